@@ -11,7 +11,7 @@ import (
 )
 
 // Joins byte array joiner to subject.
-func bytesJoin(joiner rel.Value, subject rel.Bytes) rel.Value {
+func bytesJoin(joiner rel.Value, subject rel.Bytes) (rel.Value, error) {
 	var j []byte
 	switch v := joiner.(type) {
 	case rel.Bytes:
@@ -19,7 +19,7 @@ func bytesJoin(joiner rel.Value, subject rel.Bytes) rel.Value {
 	case rel.EmptySet:
 		j = []byte{}
 	default:
-		panic(fmt.Errorf("bytesJoin: unsupported joiner type %T", joiner))
+		return nil, fmt.Errorf("//seq.join: joiner not a byte array: %v", joiner)
 	}
 	result := make([]byte, 0, subject.Count())
 	for index, e := range subject.Bytes() {
@@ -29,7 +29,7 @@ func bytesJoin(joiner rel.Value, subject rel.Bytes) rel.Value {
 		result = append(result, e)
 	}
 
-	return rel.NewBytes(result)
+	return rel.NewBytes(result), nil
 }
 
 // Splits byte array subject by delimiter.
